@@ -48,9 +48,9 @@ ANCHORS = ['pfhedge.nn.functional:leaky_clamp',
            'pfhedge.nn.functional:box_muller',
            'pfhedge.nn.functional:realized_volatility',
            'pfhedge.nn.modules.svi:SVIVariance.forward']
-DECIDING = ["clamp.piecewise", "leaky_clamp.piecewise", "Clamp.module", "LeakyClamp.module", "ww.band", "ww.zero_cost_is_delta",
+DECIDING = ["ww.band_path_dependent", "clamp.piecewise", "leaky_clamp.piecewise", "Clamp.module", "LeakyClamp.module", "ww.band", "ww.zero_cost_is_delta",
             "svi.formula", "bilerp.formula", "box_muller.formula", "realized_volatility.sqrt"]
-REQUIRED_BRANCHES = ["svi.sigma_zero_or_negative", "ww.cost_changed_after_construction", "clamp.inverted.mean", "clamp.inverted.max", "leaky.inverted.max", "ww.inside_band", "ww.outside_band",
+REQUIRED_BRANCHES = ["ww.path.max_below_strike", "svi.sigma_zero_or_negative", "ww.cost_changed_after_construction", "clamp.inverted.mean", "clamp.inverted.max", "leaky.inverted.max", "ww.inside_band", "ww.outside_band",
                      "module.inverted.max"]
 
 
@@ -192,6 +192,44 @@ def bs_delta_gamma(s, tt, v, K, call):
     S = K * mpmath.e ** s
     gamma = mpmath.npdf(d1) / (S * w)
     return delta, gamma, S
+
+
+def drv_ww_path(ctx, k, rng):
+    """Whalley-Wilmott on path-dependent options (features: log-moneyness, running maximum, time to maturity, volatility, previous hedge): the hedge is
+    the previous hedge kept inside [delta - width, delta + width], with delta and width the module's own (each judged elsewhere: C08 / ww_width)."""
+    from pfhedge.instruments import AmericanBinaryOption, LookbackOption
+
+    dtype = F64 if rng.random() < 0.8 else F32
+    cost = float(pick(rng, [1e-5, 1e-3, 1e-2, 0.0]))
+    a = float(pick(rng, [0.1, 1.0, 10.0]))
+    K = float(pick(rng, [1.0, 0.8, 1.3]))
+    cls = pick(rng, [LookbackOption, AmericanBinaryOption])
+    d = cls(BrownianStock(cost=cost), strike=K)
+    m = WhalleyWilmott(d, a=a)
+    n = 12
+    s = t(rng.uniform(-0.3, 0.3, n), dtype)
+    mx = torch.maximum(s, t(rng.uniform(-0.3, 0.3, n), dtype))
+    tt = t(10 ** rng.uniform(-2.0, 0.3, n), dtype)
+    v = t(rng.uniform(0.05, 0.6, n), dtype)
+    base = torch.stack([s, mx, tt, v], dim=-1)
+    with torch.no_grad():
+        delta = m.bs(base).squeeze(-1)
+        width = m.width(base).squeeze(-1)
+    prev = torch.where(torch.as_tensor(rng.random(n) < 0.5), delta + t(rng.standard_normal(n) * 0.02, dtype), t(rng.uniform(-1.2, 1.2, n), dtype))
+    with torch.no_grad():
+        out = m(torch.cat([base, prev.unsqueeze(-1)], dim=-1)).squeeze(-1)
+    mon = "ww.band_path_dependent"
+    ctx.seen(mon)
+    if bool((mx < 0).any()):
+        ctx.branch("ww.path.max_below_strike")
+    fin = torch.isfinite(delta) & torch.isfinite(width)
+    want = torch.minimum(torch.maximum(prev, delta - width), delta + width)
+    e_ = float(torch.finfo(dtype).eps)
+    ok = bool(((out - want).abs()[fin] <= 8 * e_ * (want.abs() + width.abs() + 1)[fin]).all())
+    i = int(((out - want).abs() * fin).argmax())
+    ctx.check(mon, ok, "ww_band_path", f"WhalleyWilmott({cls.__name__}) output {float(out[i])!r} is not the previous hedge {float(prev[i])!r} kept inside delta +- width = "
+              f"{float(delta[i])!r} +- {float(width[i])!r} (cost {cost}, max_log_moneyness {float(mx[i])!r})", sig=(cls.__name__, str(dtype), cost > 0, a),
+              log_moneyness=s, max_log_moneyness=mx, time_to_maturity=tt, volatility=v, prev=prev, out=out, delta=delta, width=width)
 
 
 def drv_ww(ctx, k, rng):
@@ -374,6 +412,7 @@ def drv_witness(ctx, k, rng):
 
 
 DRIVERS = [
+    ("ww_path", 40, 1500, drv_ww_path),
     ("witness", 1, 1, drv_witness),
     ("clamp", 500, 30000, drv_clamp),
     ("ww", 120, 5000, drv_ww),
